@@ -56,11 +56,13 @@ CHECKS = {
  "C12": dict(
    text="Coq: the table and index traversals deliver the rows up to the first failing page / cell and then report that failure (C12_table_iter, C12_index_iter: iter = deliver the "
         "flattening, where the flattening stops at the first error); for ANY set of page reads turned into failures the rows a scan sees are the fault-free rows or a prefix of them "
-        "followed by an error (C12_table_rows, C12_index_rows, C12_table_scan, C12_index_scan, C12_store; overflow pages included). Every run: the k-th physical read of every "
+        "followed by an error (C12_table_rows, C12_index_rows, C12_table_scan, C12_index_scan, C12_store; overflow pages included); the same for the from-key scans and Table.Rowid (C12_scan_min, C12_scan_range, C12_scan_eq, C12_rowid). Every run: the k-th physical read of every "
         "operation (low level and high level, incl. the nested lookups of the indexed selects) fails, for every k up to the fault-free read count, as I/O error and as short read; "
         "the verdict is the property predicate itself; always-failing pages are run through the extracted model and the implementation.",
-   note="The unbounded theorems cover the full scans; for the from-key scans, Table.Rowid and the high level operations the model contains the error paths (incl. the error-remembering "
-        "bisection) and is compared with the code under faults on every run, but the prefix theorem for them is not proved yet (partial). RLock failure is covered by C06/C07.",
+   note="The from-key operations have their own simulation proof (Proofs/FaultMinP.v): Index.ScanMin / ScanRange / ScanEq with any callback whose collected rows only grow (C12_scan_min, "
+        "C12_scan_range, C12_scan_eq, C12_collectors_grow) and Table.Rowid (C12_rowid: the fault-free answer or an error) under any set of failing reads, the error-remembering bisection "
+        "included. The high level operations (Select*, IndexedSelect*, PKSelect: nested lookups, row mapping) are in the executable model and are compared with the code under faults on "
+        "every run; their prefix property follows from these theorems only informally (partial for the high level API). RLock failure is covered by C06/C07.",
    technique="Coq proof (fault monotonicity of the tree flattening) + exhaustive k-th-read fault injection on the Go code + model/implementation differential under faults",
    design="DESIGN.md section 6, C12"),
  "C13": dict(
@@ -83,12 +85,12 @@ CHECKS = {
  "C11": dict(
    text="Coq: SQLite's comparison rules are written as a denotation into an ordered domain (Spec/Order.v: class order, numbers as exact dyadic rationals m*2^e plus the infinities with "
         "IEEE-754 binary64 decoded arithmetically in Z, text by collation key, blobs bytewise) and proved a total preorder on all storable values (C11_refl, C11_total, C11_trans); "
-        "compare() of db/cmp.go computes it for every pair except integer-against-real (C11_compare_spec_partial); Equals / Search are its lexicographic lifting to keys with "
+        "compare() of db/cmp.go computes it for EVERY pair of storable values, integer-against-real included (C11_compare_spec; C11_int_real: truncate, compare, tie-break through float64(i) = the exact "
+        "comparison with the real's dyadic value, for all int64 x non-NaN binary64, via exactness of float64() on integers of <= 53 significant bits); Equals / Search are its lexicographic lifting to keys with "
         "ASC/DESC and per-column collations (C11_equals, C11_search, C11_equals_search). Every run: all ordered pairs of a 108-value boundary grid x collations against SQLite's own "
         "DENSE_RANK() OVER (ORDER BY v COLLATE c) and the extracted model; random multi-column keys through Equals / Search.",
-   note="PARTIAL: the integer/real case of compare() (truncate, compare, then compare float64(i) with r) is modelled exactly and tested inside Coq on the boundary grid (C11_intreal_grid, a test) "
-        "and against SQLite on every run, but its equality with the exact dyadic comparison is not proved for all int64 x float64. Known finding: NOCASE with embedded NUL bytes. "
-        "Invalid UTF-8 under NOCASE (strings.Map substitutes U+FFFD) is outside the property's 'UTF-8 text'.",
+   note="Go's float64(int64) (round to nearest even), int64(float64) (truncation) and float comparison are written arithmetically in Model/Float.v (IEEE-754 assumed of the hardware). "
+        "Known finding: NOCASE with embedded NUL bytes. Invalid UTF-8 under NOCASE (strings.Map substitutes U+FFFD) is outside the property's 'UTF-8 text'.",
    technique="Coq proof (total preorder via denotation; lexicographic lifting) + exhaustive grid differential vs SQLite ranks",
    design="DESIGN.md section 6, C11"),
  "C15": dict(
